@@ -248,6 +248,59 @@ def predefined_history(chk):
     return Case(steps, judge, isolate=True)
 
 
+def same_name_case(chk, rng, i):
+    """Two different quantity types whose classes have the same __name__ (a
+    user's own `Length` next to the predefined one): a second type for a
+    dimension already taken is rejected however the definition is spelled,
+    and products find the first."""
+    nm = rng.choice(["Twin", "Length", "Q"])
+    e1, e2 = rng.choice([(1, -1), (1, 1)])
+    steps = [
+        {"cls": {"name": nm, "kw": {"ref_unit_symbol": ["s", "ta%d" % i]}},
+         "id": "TA", "k": "ta"},
+        {"cls": {"name": nm, "kw": {"ref_unit_symbol": ["s", "tb%d" % i]}},
+         "id": "TB", "k": "tb"},
+        {"cls": {"name": "First", "kw": {
+            "define_as": ["term", [[V("TA"), e1], [V("TB"), e2]]],
+            "ref_unit_symbol": ["s", "tf%d" % i]}}, "id": "D1", "k": "d1"},
+        # the same dimension, factors the other way round, own free symbol
+        {"cls": {"name": "Second", "kw": {
+            "define_as": ["term", [[V("TB"), e2], [V("TA"), e1]]],
+            "ref_unit_symbol": ["s", "tg%d" % i]}}, "id": "D2", "k": "d2"},
+        {"k": "sym", "e": U("tg%d" % i)},
+        {"k": "prod", "e": OP("*" if e2 == 1 else "/",
+                              Q(["i", 2], "ta%d" % i),
+                              Q(["i", 3], "tb%d" % i))},
+    ]
+
+    def judge(obs, rec, case):
+        if obs is None or "d1" not in obs:
+            chk.inconclusive_because("same-name case not observed")
+            return
+        if any(obs.get(k, {}).get("k") == "E" for k in ("ta", "tb", "d1")):
+            chk.count("same-name types not declarable")
+            return
+        chk.case(("same-name types", i, nm, e1, e2))
+        chk.count("types with equal class names")
+        bad = []
+        if obs.get("d2", {}).get("k") != "E":
+            bad.append("a second type for the dimension %s**%d * %s**%d of "
+                       "two types that are both called %r was accepted" %
+                       (nm, e1, nm, e2, nm))
+        elif obs.get("sym", {}).get("k") != "E":
+            bad.append("the rejected type's symbol is registered")
+        pr = obs.get("prod", {})
+        if pr.get("k") != "Q" or pr.get("t") != "First" or \
+                val(pr) != F(2) ** e1 * F(3) ** e2:
+            bad.append("2 ta ** %d * 3 tb ** %d gives %s, expected %s of "
+                       "type First" % (e1, e2, brief(pr),
+                                       F(2) ** e1 * F(3) ** e2))
+        if bad:
+            chk.violation("; ".join(bad), dict(obs=obs, steps=steps),
+                          "dup-dimension")
+    return Case(steps, judge, isolate=True)
+
+
 def run(chk, R, tier, seed):
     rng = random.Random("C15-%d" % seed)
     for c in ("declared|base", "declared|derived", "declared|plain",
@@ -267,3 +320,7 @@ def run(chk, R, tier, seed):
         run_cases(chk, R, cases, preload=("quantity",))
         done += m
     run_cases(chk, R, [predefined_history(chk)])
+    chk.require("types with equal class names")
+    run_cases(chk, R, [same_name_case(chk, rng, i)
+                       for i in range(12 if tier == "quick" else 100)],
+              preload=("quantity",))
